@@ -74,6 +74,7 @@ func (sw *SessWorld) startAdder(lc lateConn, i int) {
 		case <-lc.go_:
 		case <-time.After(time.Duration(i+1) * time.Millisecond):
 		}
+		simsync.Yield("h:woke")
 		sw.S.AddConnection(lc.conn)
 	})
 }
